@@ -1,7 +1,7 @@
 //! Shared engine runner: evaluates a batch of scripts, each in a fresh context (or a shared one),
 //! and prints one JSON line per script: {"id":..,"out":[..],"completion":".."}.
 //! Input (stdin): scripts separated by header lines `//// <id> [key=value ...]`.
-//!   keys: reuse=1 (keep the context of the previous script), loop=<n> rec=<n> stack=<n> (runtime limits),
+//!   keys: reuse=1 (keep the context of the previous script), reset=1 (drop the kept context first), loop=<n> rec=<n> stack=<n> (runtime limits),
 //!         budget=<n> (instruction budget), opt=<bits> (optimizer options; absent = default),
 //!         ic=0 (inline caches off, hook), icrec=1 (record InlineCache get/set events into "ic")
 use boa_engine::optimizer::OptimizerOptions;
@@ -34,6 +34,7 @@ fn main() {
             if let Some((k, v)) = kv.split_once('=') {
                 match k {
                     "reuse" => reuse = v == "1",
+                    "reset" => { if v == "1" { shared = None; } }
                     "loop" => l.loop_iter = v.parse().ok(),
                     "rec" => l.recursion = v.parse().ok(),
                     "stack" => l.stack = v.parse().ok(),
